@@ -39,7 +39,7 @@ Theorem C15_relay : forall render thr rq sc,
   /\ (relay500 r = true <-> panics_before_header sc = true)
   /\ (relay500 r = true -> wire r = 500 /\ body r = [err_chunk])
   /\ (relay500 r = false ->
-        wire_hdr (final r) = wire_hdr (fst (exec sc rw0)) /\ body r = wbody (fst (exec sc rw0)))
+        wire_hdr (final r) = wire_hdr (fst (exec true sc rw0)) /\ body r = wbody (fst (exec true sc rw0)))
   /\ records r = [BEG (rip rq) (rmethod rq) (ruri rq) (rid rq)]
                  ++ (match panic_of sc with Some p => [ERR p (rid rq)] | None => [] end)
                  ++ [END (logged r) (rip rq) (rmethod rq) (ruri rq) (rid rq)]
@@ -104,13 +104,26 @@ Theorem C15_needs_total_render : forall render thr rq sc v,
 Proof. exact relay_render_partial. Qed.
 Print Assumptions C15_needs_total_render.
 
+(** Flush: the code before commit 9de7f2e left Status at 0 when Flush sent the implicit 200
+    ([relay_gen _ false]).  Refuted: for a handler that flushes and then panics — a script inside
+    the quantifier, which does NOT panic before a header was written — Relay still calls
+    http.Error (text appended to the started 200 response) and REQ_END logs 500 for a 200.
+    With the current Flush ([relay = relay_gen _ true]) [C15_relay] holds with Flush in the
+    script language, see [C15_example_flush_then_panic]. *)
+Theorem C15_flush_old_refuted : exists sc rq,
+  codes_ok sc = true /\ no_abort sc /\ set_once sc = true /\ panics_before_header sc = false /\
+  let r := relay_gen (fun v => Some v) false 4 rq sc in
+  escaped r = false /\ relay500 r = true /\ wire r = 200 /\ logged r = 500 /\ body r = [err_chunk].
+Proof. exact flush_old_refuted. Qed.
+Print Assumptions C15_flush_old_refuted.
+
 (** The executable verdict used by the correspondence check accepts every behaviour of the model
     at Info level (scripts in scope whose body chunks differ from the marker of http.Error's text):
     a SPECFAIL is never raised against something the theorems above allow. *)
 Theorem C15_check_accepts_model : forall thr rq sc,
   enabled thr LInfo = true -> codes_ok sc = true -> no_abort sc -> no_err_chunk sc = true ->
-  let r := relay total_render thr rq sc in
-  verdict_ok (check_case thr rq sc (escaped r) (wire r) (body r) (records r)) = true.
+  forall bs, let r := relay total_render thr rq sc in
+  verdict_ok (check_case thr rq sc (escaped r) (wire r) bs (body r) (records r)) = true.
 Proof. exact check_accepts_model. Qed.
 Print Assumptions C15_check_accepts_model.
 
@@ -130,6 +143,19 @@ Example C15_example_copy_then_panic :
   let r := relay total_render 4 ex_rq [Body ViaCopyFile 11; Body ViaCopyString 12; Panic (PV 3)] in
   (escaped r, relay500 r, wire r, body r, records r)
   = (false, false, 200, [11; 12], [BEG 1 1 7 7; ERR (PV 3) 7; END 200 1 1 7 7]).
+Proof. vm_compute. reflexivity. Qed.
+
+(* Flush / FlushError before the panic count as "a status was written": no 500, END logs 200 = wire *)
+Example C15_example_flush_then_panic :
+  let r := relay total_render 4 ex_rq [Nop; Flush true; Panic (PV 3)] in
+  (panics_before_header [Nop; Flush true; Panic (PV 3)], escaped r, relay500 r, wire r, body r, records r)
+  = (false, false, false, 200, [], [BEG 1 1 7 7; ERR (PV 3) 7; END 200 1 1 7 7]).
+Proof. vm_compute. reflexivity. Qed.
+
+(* Store.Error500 / Redirect as the harness expands them: WriteHeader + helper body *)
+Example C15_example_helpers :
+  let r := relay total_render 4 ex_rq [Hdr 302; Body ViaHelper 777777; Panic (PV 3)] in
+  (relay500 r, wire r, logged r) = (false, 302, 302).
 Proof. vm_compute. reflexivity. Qed.
 
 (* nothing written, no panic: net/http sends 200, END logs 200 *)
@@ -170,10 +196,15 @@ Example C15_example_pairing :
 Proof. vm_compute. split; reflexivity. Qed.
 
 Example C15_example_check :
-  verdict_ok (check_case 4 ex_rq [Nop; Panic (PV 3)] false 500 [err_chunk]
+  verdict_ok (check_case 4 ex_rq [Nop; Panic (PV 3)] false 500 true [err_chunk]
                 [BEG 1 1 7 7; ERR (PV 3) 7; END 500 1 1 7 7]) = true
-  /\ spec_500 (check_case 4 ex_rq [Body ViaCopyFile 11; Panic (PV 3)] false 200 [11; err_chunk]
+  /\ spec_500 (check_case 4 ex_rq [Body ViaCopyFile 11; Panic (PV 3)] false 200 true [11; err_chunk]
                 [BEG 1 1 7 7; ERR (PV 3) 7; END 500 1 1 7 7]) = false
-  /\ spec_records (check_case 4 ex_rq [Hdr 404] false 404 [] [BEG 1 1 7 7; END 200 1 1 7 7]) = false
-  /\ spec_noescape (check_case 4 ex_rq [Panic (PV 3)] true 0 [] [BEG 1 1 7 7; END 200 1 1 7 7]) = false.
+  /\ spec_records (check_case 4 ex_rq [Hdr 404] false 404 true [] [BEG 1 1 7 7; END 200 1 1 7 7]) = false
+  /\ spec_noescape (check_case 4 ex_rq [Panic (PV 3)] true 0 true [] [BEG 1 1 7 7; END 200 1 1 7 7]) = false
+  (* the old Flush as observed: 200 + error text, END 500 *)
+  /\ spec_ok (check_case 4 ex_rq [Flush false; Panic (PV 3)] false 200 true [err_chunk]
+                [BEG 1 1 7 7; ERR (PV 3) 7; END 500 1 1 7 7]) = false
+  (* repeated WriteHeader: a REQ_END carrying the first code instead of the last is no mismatch *)
+  /\ verdict_ok (check_case 4 ex_rq [Hdr 404; Hdr 503] false 404 true [] [BEG 1 1 7 7; END 404 1 1 7 7]) = true.
 Proof. vm_compute. repeat split; reflexivity. Qed.
